@@ -14,7 +14,9 @@ RULE = (
     "initializers.update, rename_values) and ENUMERATE every position k at which the one invalid element "
     "can sit among valid ones. Oracle: snapshot of all public accessors of all objects ever created "
     "(incl. the arguments) immediately before == immediately after every raising call; plus a "
-    "differential replay of the history without the rejected calls (sees name-authority counters). "
+    "differential replay of the history without the rejected calls, both followed by one fixed tail of later edits "
+    "(append twice/pop/remove on every input/output list, register/rename/unregister as initializer) whose step-by-step "
+    "outcomes must agree (sees name-authority and reference counters). "
     "Non-trivial = a call raised AND (the raising call had a multi-element argument or >=2 graphs were "
     "populated). distinct = distinct script JSON."
 )
@@ -48,7 +50,8 @@ def strategy(tier, phase):
     return st.fixed_dictionaries(
         # safe=True always: the op variant of the C01 known finding (a graph input/initializer accepted as
         # node output) produces states that already violate C01; atomicity is judged on consistent states.
-        {"setup": st.integers(0, 1), "safe": st.just(True), "ops": st.sampled_from([2, 4, 8, 14, 24, max_ops]).flatmap(lambda n: st.lists(opst, min_size=max(1, n // 2), max_size=n))}
+        {"setup": st.integers(0, 1), "safe": st.just(True), "ops": st.sampled_from([2, 4, 8, 14, 24, max_ops]).flatmap(
+            lambda n: st.one_of(st.lists(opst, min_size=max(1, n // 2), max_size=n), st.lists(U.op_strategy(names), min_size=max(1, n // 2), max_size=n)))}
     )
 
 
@@ -372,6 +375,16 @@ def _differential(setup, ops, safe=False):
         u2.sweep()
     s1 = snapshot.take(u1, with_ids=False)
     s2 = snapshot.take(u2, with_ids=False)
+    if s1 == s2:
+        # the two histories ended in equal public states: drive both through the same fixed tail of accepted edits, which
+        # makes IR-private bookkeeping (reference counters of the input/output lists, name registrations) observable
+        t1, t2 = _stress_tail(u1), _stress_tail(u2)
+        if t1 != t2:
+            j = next(i for i, (a, b) in enumerate(zip(t1, t2)) if a != b)
+            first = ops[raised[0]][0] if raised else "?"
+            return (f"differential/later-edits/{first}", f"after rejected calls {raised} the same later edits behave differently: step {t1[j][0]} gives {t1[j][1:]} "
+                    f"but {t2[j][1:]} when the rejected calls are left out")
+        return None
     if s1 != s2:
         # attribute to the single rejected op whose removal alone changes the outcome, if any
         culprit = "?"
@@ -388,3 +401,44 @@ def _differential(setup, ops, safe=False):
                 break
         return (f"differential/{culprit}", f"final state differs when rejected calls {raised} are left out: {snapshot.diff(s2, s1)}")
     return None
+
+
+def _stress_tail(u):
+    """A fixed sequence of edits applied after a history; returns what each step showed (exception class or ownership flags)."""
+    obs = []
+    graphs = list(u.graphs)[:4]
+    values = list(u.values)[:14]
+
+    def flags(v):
+        g = v.graph
+        return (v.is_graph_input(), v.is_graph_output(), v.is_initializer(), next((i for i, x in enumerate(u.graphs) if x is g), None), v.name)
+
+    for gi, g in enumerate(graphs):
+        for ci, coll in enumerate((g.inputs, g.outputs)):
+            for vi, v in enumerate(values):
+                step = f"g{gi}.{'inputs' if ci == 0 else 'outputs'}: append v{vi} twice, pop, remove"
+                try:
+                    coll.append(v)
+                    coll.append(v)
+                    coll.pop()
+                    mid = flags(v)
+                    coll.remove(v)
+                    obs.append((step, mid, flags(v), len(coll)))
+                except Exception as e:
+                    obs.append((step, type(e).__name__, flags(v), len(coll)))
+        for vi, v in enumerate(values):
+            step = f"g{gi}.initializers: register v{vi}, rename, unregister"
+            try:
+                had = v.name in g.initializers
+                g.register_initializer(v)
+                a = flags(v)
+                old = v.name
+                v.name = f"{old}_t"
+                b = (flags(v), sorted(k for k in g.initializers if k in (old, f"{old}_t")))
+                v.name = old
+                if not had:
+                    del g.initializers[old]
+                obs.append((step, a, b, flags(v)))
+            except Exception as e:
+                obs.append((step, type(e).__name__, flags(v)))
+    return obs
